@@ -264,6 +264,16 @@ func parseLine(line string, document *Document, family *FamilyNode) (Node, int, 
 	// Tag (required).
 	tag := TagFromString(parts[3])
 
+	// Husbands, wives and children only exist as part of a family. Rather than
+	// letting newNode panic, treat a line that appears before any family as a
+	// line that cannot be parsed.
+	switch tag {
+	case TagChild, TagHusband, TagWife:
+		if family == nil {
+			return nil, 0, fmt.Errorf("%s without a family: %s", tag.Tag(), line)
+		}
+	}
+
 	// Value (optional).
 	value := parts[4]
 
